@@ -2,6 +2,7 @@
 nesting of `.contents` by identity after every call, compared with (a) the independent list-of-lists spec of
 the documented effect (harness/heapsim.Spec) and (b) the Lean heap model."""
 import itertools, json
+from harness.common import Hang, arm as common_arm, disarm as common_disarm
 from collections import Counter
 
 from .common import Ctx, Driver
@@ -104,71 +105,78 @@ def run_history(ctx, rng, steps, stream, ops_fixed=None, kinds_fixed=None, parse
     nontrivial = False
     copy_used = False
     it = iter(ops_fixed) if ops_fixed is not None else None
-    for s in range(steps):
-        op = next(it, None) if it is not None else heapsim.gen_op(rng, w, stats, copies=copies)
-        if op is None:
-            break
-        ops.append(op)
-        before = shape_of_world(w)
-        if copies and any(a in w.copy_labels for fld in op.split(":")[1:] for a in fld.split(",")):
-            copy_used = True
-            ctx.count("cp:later-call-uses-a-node-of-a-copy")
-        # decompose() / clear(decompose=True): exactly the elements of the subtree (of the element / of each child) are destroyed - the
-        # documented observable is `.decomposed` - and a destroyed Tag has no children (Props/C02 decompose_effect, clear_decompose_effect)
-        doomed = doomed_by(w, op)
-        st = w.apply(op)
-        if doomed is not None and st == "ok":
-            ctx.count("decompose:destroyed-elements", len(doomed))
-            what = destroyed_wrong(w, doomed, dead_ids)
-            if what:
-                ctx.violation(f"{op}: an element {what} (destroyed {len(doomed)} expected)",
-                              case={"kinds": kinds, "ops": ops, "parsed": bool(parsed), "before": before, "twin": getattr(w, "twin_choices", None)},
-                              expected=f"{len(doomed)} destroyed", observed=what, stream=stream)
+    try:
+        for s in range(steps):
+            common_arm(60)
+            op = next(it, None) if it is not None else heapsim.gen_op(rng, w, stats, copies=copies)
+            if op is None:
                 break
-        ctx.count("op:" + op.split(":")[0])
-        ctx.count("outcome:" + st)
-        if op.startswith("cp:") and st == "ok" and w.copy_oracle_msg:
-            # the copy clause evaluated directly (heapsim.copy_oracle): a new tree nested like the source, nothing else moved
-            ctx.violation(f"{op}: the copy is not a new tree beside an untouched forest: " + w.copy_oracle_msg,
-                          case={"kinds": kinds, "ops": ops, "parsed": bool(parsed), "before": before, "twin": getattr(w, "twin_choices", None)},
-                          observed=w.copy_oracle_msg, stream=stream)
-            outcomes.append(None)
-            shapes.append(None)
-            break
-        outcomes.append(st)
-        if st != "ok":
-            shapes.append(None)
-            if st == "err:ValueError" and not cycle_attempt(op, before):
-                # a refused call ("can't insert an element before itself", "cannot replace an element that is not part of a tree", ...)
-                # changes the forest in no way: not even the arguments that stood before the offending one have moved
-                after = shape_of_world(w)
-                diff = next((l for l in set(before) | set(after) if before.get(l) != after.get(l)), None)
-                ctx.count("refused-calls-checked")
-                if diff is not None:
-                    ctx.violation(f"{op}: the call raised ValueError but changed the forest: children of {diff} were {before.get(diff)}, are {after.get(diff)}",
+            ops.append(op)
+            before = shape_of_world(w)
+            if copies and any(a in w.copy_labels for fld in op.split(":")[1:] for a in fld.split(",")):
+                copy_used = True
+                ctx.count("cp:later-call-uses-a-node-of-a-copy")
+            # decompose() / clear(decompose=True): exactly the elements of the subtree (of the element / of each child) are destroyed - the
+            # documented observable is `.decomposed` - and a destroyed Tag has no children (Props/C02 decompose_effect, clear_decompose_effect)
+            doomed = doomed_by(w, op)
+            st = w.apply(op)
+            if doomed is not None and st == "ok":
+                ctx.count("decompose:destroyed-elements", len(doomed))
+                what = destroyed_wrong(w, doomed, dead_ids)
+                if what:
+                    ctx.violation(f"{op}: an element {what} (destroyed {len(doomed)} expected)",
                                   case={"kinds": kinds, "ops": ops, "parsed": bool(parsed), "before": before, "twin": getattr(w, "twin_choices", None)},
-                                  expected=before.get(diff), observed=after.get(diff), stream=stream)
-            break
-        spec.apply(op)
-        got = shape_of_world(w)
-        shapes.append(got)
-        want = spec.shape()
-        # compare on the live elements (destroyed ones are gone on both sides)
-        bad = None
-        for l, k in got.items():
-            if want.get(l) != k:
-                bad = (l, k, want.get(l))
-                break
-        if bad is None:
-            for l in want:
-                if l not in got and want[l] != "-":
-                    bad = (l, None, want[l])
+                                  expected=f"{len(doomed)} destroyed", observed=what, stream=stream)
                     break
-        if bad:
-            ctx.violation(f"{op}: children of {bad[0]} are {bad[1]}, documented effect gives {bad[2]}",
-                          case={"kinds": kinds, "ops": ops, "parsed": bool(parsed), "before": before, "twin": getattr(w, "twin_choices", None)},
-                          expected=bad[2], observed=bad[1], stream=stream)
-            break
+            ctx.count("op:" + op.split(":")[0])
+            ctx.count("outcome:" + st)
+            if op.startswith("cp:") and st == "ok" and w.copy_oracle_msg:
+                # the copy clause evaluated directly (heapsim.copy_oracle): a new tree nested like the source, nothing else moved
+                ctx.violation(f"{op}: the copy is not a new tree beside an untouched forest: " + w.copy_oracle_msg,
+                              case={"kinds": kinds, "ops": ops, "parsed": bool(parsed), "before": before, "twin": getattr(w, "twin_choices", None)},
+                              observed=w.copy_oracle_msg, stream=stream)
+                outcomes.append(None)
+                shapes.append(None)
+                break
+            outcomes.append(st)
+            if st != "ok":
+                shapes.append(None)
+                if st == "err:ValueError" and not cycle_attempt(op, before):
+                    # a refused call ("can't insert an element before itself", "cannot replace an element that is not part of a tree", ...)
+                    # changes the forest in no way: not even the arguments that stood before the offending one have moved
+                    after = shape_of_world(w)
+                    diff = next((l for l in set(before) | set(after) if before.get(l) != after.get(l)), None)
+                    ctx.count("refused-calls-checked")
+                    if diff is not None:
+                        ctx.violation(f"{op}: the call raised ValueError but changed the forest: children of {diff} were {before.get(diff)}, are {after.get(diff)}",
+                                      case={"kinds": kinds, "ops": ops, "parsed": bool(parsed), "before": before, "twin": getattr(w, "twin_choices", None)},
+                                      expected=before.get(diff), observed=after.get(diff), stream=stream)
+                break
+            spec.apply(op)
+            got = shape_of_world(w)
+            shapes.append(got)
+            want = spec.shape()
+            # compare on the live elements (destroyed ones are gone on both sides)
+            bad = None
+            for l, k in got.items():
+                if want.get(l) != k:
+                    bad = (l, k, want.get(l))
+                    break
+            if bad is None:
+                for l in want:
+                    if l not in got and want[l] != "-":
+                        bad = (l, None, want[l])
+                        break
+            if bad:
+                ctx.violation(f"{op}: children of {bad[0]} are {bad[1]}, documented effect gives {bad[2]}",
+                              case={"kinds": kinds, "ops": ops, "parsed": bool(parsed), "before": before, "twin": getattr(w, "twin_choices", None)},
+                              expected=bad[2], observed=bad[1], stream=stream)
+                break
+    except Hang:
+        ctx.violation(f"{ops[-1] if ops else '?'}: the call, or a walk over the forest it left, did not return within 60 s (a link chain that loops)",
+                      case={"kinds": kinds, "ops": ops, "parsed": bool(parsed), "twin": getattr(w, "twin_choices", None)}, observed="no return", stream=stream)
+    finally:
+        common_disarm()
     for k, v in stats.items():
         ctx.count(k, v)
         if k in ("arg:same-parent", "arg:elsewhere", "arg:soup", "arg:repeat") and v:
